@@ -366,7 +366,8 @@ func ruleKeyOrderPredicates(c *Ctx, id string) {
 							return unkV, false
 						},
 						Load: func(u *ssa.UnOp) (V, bool) {
-							if a, ok := u.X.(*ssa.Alloc); ok && strings.Contains(a.Comment, "exact") {
+							// the "exact match" flag: the bool cell shared with the sort.Search predicate closure
+							if a, ok := u.X.(*ssa.Alloc); ok && searchFlagCell(fn) == ssa.Value(a) {
 								return bV(exact), true
 							}
 							return unkV, false
@@ -623,4 +624,20 @@ func c04R11(c *Ctx, id string) {
 			}
 		}
 	})
+}
+
+// searchFlagCell: the *bool cell bound into the closure handed to sort.Search (set by the predicate on an exact hit).
+func searchFlagCell(fn *ssa.Function) ssa.Value {
+	for _, call := range plainCallsIn(fn, "sort.Search") {
+		if mc, ok := call.Call.Args[1].(*ssa.MakeClosure); ok {
+			for _, b := range mc.Bindings {
+				if pt, isP := b.Type().Underlying().(*types.Pointer); isP {
+					if bt, isB := pt.Elem().Underlying().(*types.Basic); isB && bt.Kind() == types.Bool {
+						return b
+					}
+				}
+			}
+		}
+	}
+	return nil
 }
